@@ -1371,6 +1371,13 @@ func (f *fragment) rangeLT(bitDepth uint, predicate int64, allowEquality bool) (
 func (f *fragment) rangeLTUnsigned(filter *Row, bitDepth uint, predicate uint64, allowEquality bool) (*Row, error) {
 	keep := NewRow()
 
+	// With a bit depth of zero every stored magnitude is zero and the loop
+	// below, which decides strictness on the last bit, never runs: nothing
+	// is strictly less than the (zero) predicate.
+	if bitDepth == 0 && !allowEquality {
+		return keep, nil
+	}
+
 	// Filter any bits that don't match the current bit value.
 	leadingZeros := true
 	for i := int(bitDepth - 1); i >= 0; i-- {
@@ -1438,6 +1445,13 @@ func (f *fragment) rangeGT(bitDepth uint, predicate int64, allowEquality bool) (
 
 func (f *fragment) rangeGTUnsigned(filter *Row, bitDepth uint, predicate uint64, allowEquality bool) (*Row, error) {
 	keep := NewRow()
+
+	// With a bit depth of zero every stored magnitude is zero and the loop
+	// below, which decides strictness on the last bit, never runs: nothing
+	// is strictly greater than the (zero) predicate.
+	if bitDepth == 0 && !allowEquality {
+		return keep, nil
+	}
 
 	// Filter any bits that don't match the current bit value.
 	for i := int(bitDepth - 1); i >= 0; i-- {
